@@ -77,6 +77,9 @@ class JsonTypestate:
                 if a.arg in ('self', 'cls'):
                     continue
                 t = strip_opt(self.prog.ann_to_type(fn.module, a.annotation, fn.cls))
+                if a.annotation is not None and ast.unparse(a.annotation).split('[')[0].split('.')[-1] in ('Callable', 'Type', 'type'):
+                    self.param_state[(fn.fq, a.arg)] = None        # declared to be a function / a class: no document value is one
+                    continue
                 if t[0] in ('dict', 'list', 'any') and fn.name.startswith('_') and not fn.name.startswith('__') and \
                         self.cg.callers(fn):
                     # a private helper is only ever called from this package: the state of its parameters is what the call
